@@ -4,8 +4,8 @@ import os
 
 from . import core
 
-HOOK_COMMITS = ["e03d988"]
-FIX_COMMITS = ["7c26a95", "7fa90f0", "f0c087a", "e99193e", "e23743b", "e274f6c", "d53ab7c", "6666d36", "240c26e", "d5ea340", "971abb4", "db7e5b1", "07318ba", "10a5b62", "a649d0f", "271d897", "ebd2600", "037e84b", "3eb1a99", "c5007d3", "548f9ea", "c23856b", "7de8a56", "d9e09f1", "713dee9", "17bda69", "c7d3caa"]
+HOOK_COMMITS = ["e03d988", "fd4decd"]
+FIX_COMMITS = ["7c26a95", "7fa90f0", "f0c087a", "e99193e", "e23743b", "e274f6c", "d53ab7c", "6666d36", "240c26e", "d5ea340", "971abb4", "db7e5b1", "07318ba", "10a5b62", "a649d0f", "271d897", "ebd2600", "037e84b", "3eb1a99", "c5007d3", "548f9ea", "c23856b", "7de8a56", "d9e09f1", "713dee9", "17bda69", "c7d3caa", "bbcb34d"]
 
 BASELINE_OFF = ("cd /repo && GOFLAGS=-mod=mod go test -json -vet=off -count=1 -timeout 25m ./...")
 
